@@ -740,6 +740,104 @@ def _short(v):
     s = repr(v)
     return s if len(s) < 300 else s[:297] + '...'
 
+# (template, format) of the pipeline family that meet a recorded known finding -> the construct key it is recorded under
+PIPELINE_KNOWN = {('data not present (221)', 'nested text'): 'nested-text:data-not-present-line'}
+
+
+def _occurrences(nodes, acc=None, role='member'):
+    """[(flat index, role, node class, owner index)]: members, replication factors and attributes of the wired tree."""
+    acc = [] if acc is None else acc
+    for n in nodes:
+        f = n.fields
+        if 'index' in f:
+            acc.append((f['index'], role, n.cls, None))
+            for a in f.get('attributes') or []:
+                acc.append((a.fields.get('index'), 'attribute', a.cls, f['index']))
+        if isinstance(f.get('factor'), Obj):
+            _occurrences([f['factor']], acc, 'factor')
+        if isinstance(f.get('members'), list):
+            _occurrences(f['members'], acc, 'member')
+    return acc
+
+
+def rule_pipeline(repo, rule='C09.R13'):
+    """End-to-end fold on the concrete template family of rules/pipeline.py: what the decoder produces (flat descriptors, values,
+    links) is wired by TemplateData.wire(), rendered by the nested text / nested JSON / flat text renderers and read back by the
+    utils converters.  Decided per template: the wiring goes through; every flat index has exactly one place in the tree (a member,
+    a replication factor, or the associated-field attribute of its owner); each rendering reads back as the decoder's flat values."""
+    from sa.rules import pipeline as P
+    rr = RuleResult(rule, 'decode -> wire -> render -> read back, folded end to end on concrete templates: every value once in the tree, every rendering converts back to the flat values')
+    rn = repo.own_method('NestedTextRenderer', '_render_template_data_nodes')
+    rd = repo.func('utils', 'subsets_nested_text_to_flat_json')
+    jn = repo.own_method('NestedJsonRenderer', '_render_template_data_nodes')
+    jr = repo.func('utils', 'template_data_nested_json_to_flat_json')
+    fr = repo.own_method('FlatTextRenderer', '_render_template_data')
+    frd = repo.func('utils', 'subsets_flat_text_to_flat_json')
+    for name in sorted(P.templates()):
+        o = P.run_template(repo, name)
+        key = name.split(' (')[0].replace(' ', '-').replace(',', '')
+        rr.instance('template "%s"' % name)
+        if not o.decode.ok:
+            rr.fail('pipeline:%s:decode' % key, 'pybufrkit/coder.py', 'template "%s": the decoder walk ends in %s' % (name, o.decode.exc.cls), witness={'template': name})
+            continue
+        if o.unread:
+            rr.fail('pipeline:%s:decode' % key, 'pybufrkit/coder.py', 'template "%s": the walk leaves %d of the scripted values unread (it expands to fewer fields than FM-94 '
+                    'gives)' % (name, o.unread), witness={'template': name})
+            continue
+        if not o.wire.ok:
+            rr.fail('pipeline:%s:wire' % key, 'pybufrkit/templatedata.py', 'template "%s": the decoder produces %d flat entries, wire() ends in %s' % (
+                name, len(o.vals), o.wire.exc.cls), witness={'template': name})
+            continue
+        occ = _occurrences(o.nodes)
+        primary = {}
+        for idx, role, cls, owner in occ:
+            if role in ('member', 'factor') or cls == 'AssociatedFieldNode':
+                primary[idx] = primary.get(idx, 0) + 1
+        bad = [i for i in range(len(o.vals)) if primary.get(i, 0) != 1] + [i for i in primary if not (isinstance(i, int) and 0 <= i < len(o.vals))]
+        if bad:
+            rr.fail('pipeline:%s:tree' % key, 'pybufrkit/templatedata.py', 'template "%s": flat entries %s do not have exactly one place in the wired tree (member, replication '
+                    'factor or associated field of its owner); occurrences %s' % (name, bad[:6], dict((i, primary.get(i, 0)) for i in bad[:6])), witness={'template': name})
+        # renderings and their read-back
+        it = TextInterp(repo, 'NestedTextRenderer')
+        res = it.run_function(rn, lambda: {'self': Obj('NestedTextRenderer', {}), 'decoded_nodes': list(o.nodes), 'decoded_descriptors': list(o.descs),
+                                           'decoded_values': list(o.vals), 'indent': ''}, self_class='NestedTextRenderer')
+        outs = {}
+        if len(res) == 1 and res[0].ok and isinstance(res[0].value, list):
+            lines = res[0].value
+            res2 = TextInterp(repo, None).run_function(rd, lambda: {'lines': ['###### subset 1 of 1 ######'] + list(lines) + ['<<<<<< section 5 >>>>>>'], 'idxline': 0})
+            r = res2[0] if len(res2) == 1 else None
+            outs['nested text'] = (r.value[1][0] if r is not None and r.ok and isinstance(r.value, tuple) and r.value[1] else (r.exc.cls if r is not None and not r.ok else None), lines)
+        else:
+            outs['nested text'] = ('rendering ' + (res[0].describe() if res else 'failed'), None)
+        res = TextInterp(repo, 'NestedJsonRenderer').run_function(jn, lambda: {'self': Obj('NestedJsonRenderer', {}), 'decoded_nodes': list(o.nodes),
+                                                                               'decoded_descriptors': list(o.descs), 'decoded_values': list(o.vals)}, self_class='NestedJsonRenderer')
+        if len(res) == 1 and res[0].ok and isinstance(res[0].value, list):
+            tree = res[0].value
+            res2 = TextInterp(repo, None).run_function(jr, lambda: {'template_data_value': [tree]})
+            r = res2[0] if len(res2) == 1 else None
+            outs['nested JSON'] = (r.value[0] if r is not None and r.ok and isinstance(r.value, list) and r.value else (r.exc.cls if r is not None and not r.ok else None), None)
+        else:
+            outs['nested JSON'] = ('rendering ' + (res[0].describe() if res else 'failed'), None)
+        td = Obj('TemplateDataStub', {'n_subsets': 1, 'decoded_descriptors_all_subsets': [list(o.descs)], 'bitmap_links_all_subsets': [dict(o.links)],
+                                      'decoded_values_all_subsets': [list(o.vals)]})
+        res = TextInterp(repo, 'FlatTextRenderer').run_function(fr, lambda: {'self': Obj('FlatTextRenderer', {}), 'template_data': td}, self_class='FlatTextRenderer')
+        if len(res) == 1 and res[0].ok and isinstance(res[0].value, str):
+            flines = res[0].value.split('\n')
+            res2 = TextInterp(repo, None).run_function(frd, lambda: {'lines': flines + ['<<<<<< section 5 >>>>>>'], 'idxline': 0})
+            r = res2[0] if len(res2) == 1 else None
+            outs['flat text'] = (r.value[1][0] if r is not None and r.ok and isinstance(r.value, tuple) and r.value[1] else (r.exc.cls if r is not None and not r.ok else None), flines)
+        else:
+            outs['flat text'] = ('rendering ' + (res[0].describe() if res else 'failed'), None)
+        for fmt, (got, lines) in sorted(outs.items()):
+            rr.instance('template "%s": %s read back' % (name, fmt))
+            if got != list(o.vals):
+                diff = [(i, a, b) for i, (a, b) in enumerate(zip(got, o.vals)) if a != b][:3] if isinstance(got, list) else got
+                rr.fail(PIPELINE_KNOWN.get((name, fmt), 'pipeline:%s:%s' % (key, fmt.replace(' ', '-'))), 'pybufrkit/renderer.py', 'template "%s": the %s of the decoded data reads back as %s; the decoder\'s flat '
+                        'values are %s (first differences (index, read, flat): %s)' % (name, fmt, _short(got), _short(list(o.vals)), diff),
+                        witness={'template': name, 'format': fmt, 'lines': lines})
+    rr.require_floor(60)
+    return rr
+
 
 def rule_r5(repo):
     rr = RuleResult('C09.R5', 'text renderings fold back to the flat values: every line kind and value shape, rendered and read back')
@@ -916,6 +1014,7 @@ def run(repo, check):
     check.run_rule(rule_registered, repo)
     check.run_rule(rule_attributes_shown, repo)
     check.run_rule(rule_per_subset_rendering, repo)
+    check.run_rule(rule_pipeline, repo)
     from sa.rules.common import share
     share(check, repo, c06.rule_alias, 'C09.R8', 'node / link records: one per subset when uncompressed, one shared record when compressed (shared with C05.R3 / C06.R5)', args=('C09.R8',))
     from sa.rules import c03 as _c03
